@@ -268,7 +268,11 @@ def check_gssvx(ev):
     else:
         DL, DU = dense_LU(ev)
         E = absmat_prod(DL, DU, n, n)
-    if ev.get("nrhs", 0) > 0 and "X1" in ev:
+    try:
+        check_cond_growth_refine(ev, F, DU, res)
+    except ZeroDivisionError:
+        pass
+    if ev.get("nrhs", 0) > 0 and "X1" in ev and info in (0, n + 1):
         A = dense_from_triplets(ev["A0"], n, n, cplx)
         if fact == 3 and ev["equed"] in "RCB":
             # FACTORED: the caller passes the equilibrated matrix; the system solved is the unscaled one
@@ -319,11 +323,85 @@ def check_gssvx(ev):
     return res
 
 
+def inverse(M, n):
+    """exact inverse of an n x n matrix of (re, im) Fractions by Gauss-Jordan; None if singular"""
+    def cdiv(a, b):
+        d = b[0] * b[0] + b[1] * b[1]
+        return ((a[0] * b[0] + a[1] * b[1]) / d, (a[1] * b[0] - a[0] * b[1]) / d)
+    W = [list(M[i]) + [ONE if i == j else Z for j in range(n)] for i in range(n)]
+    for c in range(n):
+        p = next((r for r in range(c, n) if W[r][c] != Z), None)
+        if p is None:
+            return None
+        W[c], W[p] = W[p], W[c]
+        piv = W[c][c]
+        W[c] = [cdiv(v, piv) for v in W[c]]
+        for r in range(n):
+            if r != c and W[r][c] != Z:
+                f = W[r][c]
+                W[r] = [csub(W[r][k], cmul(f, W[c][k])) for k in range(2 * n)]
+    return [row[n:] for row in W]
+
+
+def cmod(z):
+    """modulus as a Fraction (float square root: only used inside a tolerance)"""
+    if z[1] == 0:
+        return abs(z[0])
+    if z[0] == 0:
+        return abs(z[1])
+    import math
+    return Fr(math.hypot(float(z[0]), float(z[1])))
+
+
+def norm1(M, n, inf=False):
+    if inf:
+        return max(sum(cmod(M[i][j]) for j in range(n)) for i in range(n))
+    return max(sum(cmod(M[i][j]) for i in range(n)) for j in range(n))
+
+
+def check_cond_growth_refine(ev, F, DU, res):
+    """C12 / C13 numeric clauses of an expert-driver line; F = the matrix that was factored (AA orientation)"""
+    ty = ev["ty"]; cplx = CPLX[ty]; eps = EPS[ty]; n = ev["n"]; info = ev["info"]
+    tr = ev["fmt"] == "NR"; trans = ev["opts"]["Trans"]
+    effN = (trans == 0) if not tr else (trans != 0)
+    o = ev["opts"]
+    if o["Cond"] == 1 and info in (0, n + 1) and "rcond" in ev:
+        Finv = inverse(F, n)
+        rc = tok(ev["rcond"])
+        if Finv is not None:
+            true = 1 / (norm1(F, n, inf=not effN) * norm1(Finv, n, inf=not effN))
+            res["rcond_true_over_reported"] = float(true / rc) if rc else None
+            tol = min(Fr(1, 2), 200 * n * eps / true + Fr(1, 10 ** 6))
+            # below machine epsilon both values only say "singular to working precision" (the solves may overflow)
+            if rc < true * (1 - tol) and not (true < eps and rc < eps):
+                res["bad"].append("C12.rcond_below_true_value")
+        if rc > 1 + 16 * n * eps:
+            res["bad"].append("C12.rcond_exceeds_one")
+    if ((o["PivotGrowth"] == 1 and info in (0, n + 1)) or (0 < info <= n)) and "rpg" in ev and ev["fn"] == "gssvx":
+        pc = ev["perm_c"]
+        ncols = n if info in (0, n + 1) else info
+        ipc = [0] * n
+        for j in range(n):
+            ipc[pc[j]] = j
+        sml = SAFE[ty][0]
+        rpg = 1 / sml
+        for j in range(ncols):
+            maxa = max([cabs1(F[i][ipc[j]]) for i in range(n)] + [Fr(0)])
+            maxu = max([cabs1(DU[i][j]) for i in range(j + 1)] + [Fr(0)])
+            rpg = min(rpg, Fr(1) if maxu == 0 else maxa / maxu)
+        rep = tok(ev["rpg"])
+        if not close(rep, rpg, 4, eps):
+            res["bad"].append("C12.growth_factor")
+        res["rpg_checked"] = True
+    return res
+
+
 SAFE = {"d": (Fr(2) ** -1022, Fr(2) ** -52), "z": (Fr(2) ** -1022, Fr(2) ** -52), "s": (Fr(2) ** -126, Fr(2) ** -23), "c": (Fr(2) ** -126, Fr(2) ** -23)}
 
 
-def close(a, b, ulps, eps):
-    return abs(a - b) <= ulps * eps * max(abs(a), abs(b))
+def close(a, b, ulps, eps, tiny=0):
+    """equal up to `ulps` units in the last place, or up to the spacing of subnormal numbers (gradual underflow)"""
+    return abs(a - b) <= ulps * eps * max(abs(a), abs(b)) + 2 * tiny
 
 
 def check_equ(ev):
@@ -331,6 +409,7 @@ def check_equ(ev):
     tolerance of a few units in the last place (entries with arbitrary mantissas)"""
     ty = ev["ty"]; cplx = CPLX[ty]; eps = EPS[ty]
     sml, prec = SAFE[ty]; big = 1 / sml
+    tiny = sml * prec            # spacing of the subnormal numbers
     m, n = ev["m"], ev["n"]
     A = dense_from_triplets(ev["A0"], m, n, cplx)
     mag = [[cabs1(A[i][j]) for j in range(n)] for i in range(m)]
@@ -343,32 +422,38 @@ def check_equ(ev):
     R = [tok(t) for t in ev["R"]]
     C = [tok(t) for t in ev["C"]]
     u = 4
-    if any(not close(R[i], 1 / clamp(r0[i]), u, eps) or R[i] <= 0 for i in range(m)):
+    if any(not close(R[i], 1 / clamp(r0[i]), u, eps, tiny) or R[i] <= 0 for i in range(m)):
         bad.append("C11.row_factors")
     c0 = [max(mag[i][j] * R[i] for i in range(m)) for j in range(n)]
-    zc = [j for j in range(n) if c0[j] == 0]
+    zc = [j for j in range(n) if c0[j] <= tiny]        # products that underflow count as zero
+    if zc and ev["info"] == 0 and all(c0[j] > 0 for j in zc):
+        zc = []                                          # ... unless rounding kept them (borderline)
     if zc:
         return {"bad": bad + ([] if ev["info"] == m + zc[0] + 1 else ["C11.info"])}
     if ev["info"] != 0:
         return {"bad": bad + ["C11.info"]}
-    if any(not close(C[j], 1 / clamp(c0[j]), u, eps) or C[j] <= 0 for j in range(n)):
+    if any(not close(C[j], 1 / clamp(c0[j]), 2 * u, eps, tiny) or C[j] <= 0 for j in range(n)):
         bad.append("C11.col_factors")
     rowcnd = max(min([big] + r0), sml) / min(max(r0), big)
     colcnd = max(min([big] + c0), sml) / min(max(c0), big)
-    if not (close(tok(ev["rowcnd"]), rowcnd, u, eps) and close(tok(ev["colcnd"]), colcnd, 2 * u, eps) and tok(ev["amax"]) == max(r0)):
+    if not (close(tok(ev["rowcnd"]), rowcnd, u, eps, tiny) and close(tok(ev["colcnd"]), colcnd, 4 * u, eps, tiny) and tok(ev["amax"]) == max(r0)):
         bad.append("C11.ratios")
     small = sml / prec
     rowok = tok(ev["rowcnd"]) >= Fr(1, 10) and small <= max(r0) <= 1 / small
     colok = tok(ev["colcnd"]) >= Fr(1, 10)
     q = ("N" if colok else "C") if rowok else ("R" if colok else "B")
-    if ev["equed"] != q:
+    # a ratio within rounding of the threshold may legitimately fall on either side (rule S3)
+    border = abs(rowcnd - Fr(1, 10)) <= 16 * eps or abs(colcnd - Fr(1, 10)) <= 16 * eps
+    if ev["equed"] != q and not border:
         bad.append("C11.threshold_rule")
+    elif ev["equed"] != q:
+        pass
     else:
         for (i, j, t0), t1 in zip(ev["A0"], ev["A1v"]):
             f = (R[i] if q in "RB" else 1) * (C[j] if q in "CB" else 1)
             v0 = val(t0, cplx); v1 = val(t1, cplx)
             for a, b in zip(v0, v1):
-                if not close(b, a * f, 4, eps):
+                if not close(b, a * f, 4, eps, tiny):
                     bad.append("C11.scaled_entries"); break
             else:
                 continue
